@@ -48,6 +48,9 @@ INIT_ENTRIES = ["mass.init", "density.init", "nsf.init", "xsf.init", "xsf.init_s
                 "covalent_radius.init", "crystal_structure.init", "magnetic_ff.init", "activation.init"]
 # the documented reload=True option: "how many times" a group is initialised must not matter either
 RELOAD_ENTRIES = [e + "+reload" for e in INIT_ENTRIES if e != "xsf.init_spectral_lines"]
+# the entry point applied to a deep copy / pickle round trip of the table object (the copy has its own list of loaded
+# groups but its elements are the table's own atoms, which restore themselves by name)
+CLONE_ENTRIES = [e + "+clone" for e in INIT_ENTRIES if e not in ("mass.init", "density.init")]
 CALCS = ["neutron_sld", "neutron_scattering", "xray_sld", "volume", "activation", "list", "emission_table",
          "sld_table", "D2O_sld", "fasta", "xray_f0", "magnetic", "xray_n", "xray_N", "xray_all_fwd", "xray_all_rev",
          # secondary public routes to the same data (round 7): optional keywords, module-level functions,
@@ -473,7 +476,10 @@ def do_event(w, ev):
         entry, _, opt = ev[1].partition("+")
         mod, fn = entry.split(".")
         m = importlib.import_module("periodictable." + mod)
-        if opt == "reload":
+        if opt == "clone":
+            import copy
+            getattr(m, fn)(copy.deepcopy(w.table(ev[2])))
+        elif opt == "reload":
             getattr(m, fn)(w.table(ev[2]), reload=True)
         else:
             getattr(m, fn)(w.table(ev[2]))
